@@ -317,6 +317,18 @@ def _run_case(idx, c):
         b["ckw"].pop("privateKey", None)
         b["ckw"]["settings"] = settings(minVersion=(3, 4), maxVersion=(3, 4), cipherNames=["aes256gcm"])
         state["hit"] = 1
+    if cls == "unadvertised":
+        # the verifier (client) lists SHA-256 only; the prover signs - correctly - with another hash
+        b["ckw"]["settings"].rsaSigHashes = ["sha256"]
+        b["ckw"]["settings"].ecdsaSigHashes = ["sha256"]
+        forced = ["md5", "sha1", "sha224"][c.get("var", 0) % 3]
+        orig_pick = prover._pickServerKeyExchangeSig
+
+        def _pick(*a, **kw):
+            r = orig_pick(*a, **kw)
+            state["hit"] += 1
+            return (forced,) + tuple(r[1:])
+        prover._pickServerKeyExchangeSig = _pick
     captured = {}
     if cls == "replayed" and site in ("ske12", "cv12", "scv13", "ccv13"):
         # an earlier, honest handshake of the same parties (other randoms): the signature it carried is kept
@@ -500,6 +512,8 @@ def run(tier):
             nvar = 2 if tier == "quick" else 4
         elif c["cls"] == "degenerate":
             nvar = 4 if tier == "quick" else 8
+        elif c["cls"] == "unadvertised":
+            nvar = 3
         for v in range(nvar):
             cases.append(dict(c, var=v))
     with Pool(16) as pool:
